@@ -624,16 +624,56 @@ def run(ctx) -> None:
         ctx.fail("R20b", des, des.node, k, "the analyzer does not reconstruct the pattern the engine serialised")
     bc = prog.func("openpectus.lsp.lsp_analysis:build_commands")
     ctx.analysed(bc)
-    btxt = norm(bc.node)
     k = "build_commands: validator = deserialized parser's validate on every published command"
-    if "RegexNamedArgumentParser.deserialize(c_def.validator" in btxt and "parser.validate(args)" in btxt \
-            and "uod_def.commands + uod_def.system_commands" in btxt:
+    bpar = bc.node.args.args[0].arg
+    ok_bc = False
+    bloops = [lp for lp in walk_no_nested(bc.node) if isinstance(lp, ast.For) and norm(lp.iter) == f"{bpar}.commands + {bpar}.system_commands"
+              and isinstance(lp.target, ast.Name)]
+    if bloops:
+        lv = bloops[0].target.id
+        # P = RegexNamedArgumentParser.deserialize(<lv>.validator, ..) [if <lv>.validator is not None else None]
+        pvars = [n.targets[0].id for n in ast.walk(bloops[0]) if isinstance(n, ast.Assign) and len(n.targets) == 1
+                 and isinstance(n.targets[0], ast.Name) and any(
+                     isinstance(c, ast.Call) and call_attr(c) == "deserialize" and c.args and norm(c.args[0]) == f"{lv}.validator"
+                     for c in ast.walk(n.value))]
+        # a local factory whose nested function returns <factory param>.validate(<own param>)
+        factories = {}
+        for fd in ast.walk(bloops[0]):
+            if isinstance(fd, ast.FunctionDef):
+                fpars = [a_.arg for a_ in fd.args.args]
+                for inner in ast.walk(fd):
+                    if isinstance(inner, ast.FunctionDef) and inner is not fd and inner.args.args:
+                        ip = inner.args.args[0].arg
+                        for r_ in ast.walk(inner):
+                            if isinstance(r_, ast.Return) and isinstance(r_.value, ast.Call) and call_attr(r_.value) == "validate" \
+                                    and isinstance(r_.value.func.value, ast.Name) and r_.value.func.value.id in fpars \
+                                    and [norm(x) for x in r_.value.args] == [ip]:
+                                factories[fd.name] = fpars.index(r_.value.func.value.id)
+        for c in ast.walk(bloops[0]):
+            if isinstance(c, ast.Call) and call_attr(c) == "Command":
+                vf = next((kw.value for kw in c.keywords if kw.arg == "validatorFn"), None)
+                if isinstance(vf, ast.Call) and isinstance(vf.func, ast.Name) and vf.func.id in factories and pvars:
+                    idx = factories[vf.func.id]
+                    if idx < len(vf.args) and norm(vf.args[idx]) in pvars:
+                        ok_bc = True
+    if ok_bc:
         ctx.ok("R20b", k)
     else:
         ctx.fail("R20b", bc, bc.node, k, "build_commands no longer validates with the deserialized pattern for all published commands")
     k = "create_lsp_definition publishes the parser bound to the builder's arg_parse_fn"
-    ctxt = norm(cld.node)
-    if "RegexNamedArgumentParser.get_instance(builder.arg_parse_fn)" in ctxt and "validator=parser.serialize()" in ctxt:
+    ok_cld = False
+    for lp in walk_no_nested(cld.node):
+        if isinstance(lp, ast.For) and norm(lp.iter) == "self.command_factories.items()" and isinstance(lp.target, ast.Tuple) \
+                and len(lp.target.elts) == 2:
+            nv, bv = norm(lp.target.elts[0]), norm(lp.target.elts[1])
+            pv = [n.targets[0].id for n in ast.walk(lp) if isinstance(n, ast.Assign) and len(n.targets) == 1 and isinstance(n.targets[0], ast.Name)
+                  and isinstance(n.value, ast.Call) and call_attr(n.value) == "get_instance" and [norm(x) for x in n.value.args] == [f"{bv}.arg_parse_fn"]]
+            for c in ast.walk(lp):
+                if isinstance(c, ast.Call) and call_attr(c) == "CommandDefinition":
+                    kws = {kw.arg: norm(kw.value) for kw in c.keywords}
+                    if pv and kws.get("validator") == f"{pv[0]}.serialize()" and kws.get("name") == nv:
+                        ok_cld = True
+    if ok_cld:
         ctx.ok("R20b", k)
     else:
         ctx.fail("R20b", cld, cld.node, k, "the published validator is not the pattern the command parses its argument with")
